@@ -222,6 +222,7 @@ def run(ctx):
     for mt, (fname, seq) in seqs.items():
         lay = R["layouts"].get(fname, {})
         seen_roles = set()
+        mr_terms = {}
         for e in seq.items:
             if not (isinstance(e, ListV) and len(e.items) == 5):
                 continue
@@ -238,6 +239,7 @@ def run(ctx):
                         fields.setdefault(s[0], {})[s[1]] = pos
             ob2.instance("%s MR%d" % (mt, ba.v), {"term": key(a)[:160], "fields": {r_: [p for c, p in sorted(d.items())] for r_, d in fields.items()},
                                                    "const_bits": sorted(p for p, s in P.bits.items() if ("1",) in s)})
+            mr_terms[str(ba.v)] = a
             for u in P.unknown:
                 ob2.unknown("%s MR%d: sub-term not understood: %s" % (mt, ba.v, u))
             for pos, who in P.conflicts:
@@ -258,7 +260,15 @@ def run(ctx):
         for bank, roles in lay.items():
             for role in roles:
                 if (bank, role) not in seen_roles and role not in ("BL",) and not (mt == "DDR2" and role == "WR"):
-                    ob2.refute("missing-field:%s:MR%s:%s" % (mt, bank, role), "%s MR%s: no %s field is programmed" % (mt, bank, role), None)
+                    # a field computed arithmetically instead of through an encoding table is not found by table role: if the register term still depends on the
+                    # quantity the field encodes, its placement is simply not decided here
+                    qty = {"CL": ("cl",), "CWL": ("cwl",), "WR": ("wr", "tWR", "tWTR"), "FGR": ("fine_refresh",)}.get(role, ())
+                    sup_ = " ".join(sorted(support(mr_terms[bank]))) if bank in mr_terms else ""
+                    if bank in mr_terms and any(q_ in sup_ for q_ in qty):
+                        ob2.unknown("%s MR%s: the %s field is not programmed through an encoding table (the register term is %s): its placement is not decided" %
+                                    (mt, bank, role, key(mr_terms[bank])[:120]))
+                    else:
+                        ob2.refute("missing-field:%s:MR%s:%s" % (mt, bank, role), "%s MR%s: no %s field is programmed" % (mt, bank, role), None)
     # ---- C17.3 burst length ----
     el = Elab(ctx.repo)
     cenv = el.modenv("litedram.common")
